@@ -44,8 +44,8 @@ ASSUMPTIONS = [
     'exact correspondence inputs are dyadic rationals (positions multiples of 1/8 pixel, sizes multiples of 1/8 pixel, angles multiples '
     'of 1/4 degree, scale 256 pixels/degree, FWHM2CC patched to 1/2) so that every binary64 operation of the code is exact; the only '
     'inexact operation, 0.8*min(..) of a clipped shape limit, is compared to 1e-13 relative',
-    'the model works on finite rational coordinates: a sky position that wcslib cannot project (NaN pixel) is outside the model and is '
-    'covered by the real-run oracle only',
+    'the model works on finite rational coordinates: a sky position that wcslib cannot project (NaN pixel) is outside the model; the '
+    'translator recognises the guard that skips it (C05_unprojectable_skipped) and the real runs contain such sources',
     'noise-free recovery is checked with rms=1e-3, bkg=0, 10 arcsec pixels, 30 arcsec beam, SIN projection, sources of FWHM 3-9.5 pixels',
     '"equal to the input" for shapes that are not freed is checked to 2e-5 relative / 0.01 deg: the round trip pix2sky_ellipse o '
     'sky2pix_ellipse of the real WCS is itself only good to ~1e-6 (that is C16)',
@@ -53,7 +53,7 @@ ASSUMPTIONS = [
     '(or ratio=1), so "input value" = catalogue value',
 ]
 
-FINDING_KEYS = {'psf': 'psf columns', 'limits': 'shape limits', 'unprojectable': 'cannot be projected'}
+FINDING_KEYS = {'psf': 'psf columns'}
 
 
 def known_classes():
@@ -67,38 +67,22 @@ def known_classes():
     return ks
 
 
-def is_thin(d):
-    return d['b'] < 0.8 * min(d['a'], pc.BEAM)
-
-
 def classify(case, problems):
-    """which recorded finding (if any) explains the failure of this case"""
+    """which recorded finding (if any) explains the failure of this case: only the missing psf columns.
+    Sources below the old shape limit and positions that cannot be projected are ordinary cases."""
     if not case['opts']['psf_cols']:
         return 'psf'
-    if any('NaN to integer' in p for p in problems) and any(d.get('pix') is None for d in case['cat']):
-        return 'unprojectable'
-    if any(is_thin(d) for d in case['cat']):
-        return 'limits'
     return None
 
 
-# minimal recorded inputs of the three findings (replayed before a KNOWN-FINDING line is printed)
+# minimal recorded input of the finding (replayed before a KNOWN-FINDING line is printed)
 def finding_probe(cls):
-    base = {'flavor': 'probe', 'rows': 80, 'cols': 90, 'nan': [],
-            'opts': {'stage': 1, 'regroup': True, 'ratio': None, 'psf_cols': True, 'input': 'list', 'docov': False}}
+    assert cls == 'psf'
     src = {'uuid': 'u0', 'island': 0, 'source': 0, 'ra': 150.00641, 'dec': -29.98972, 'peak_flux': 1.0, 'a': 60.0, 'b': 35.0,
            'pa': 30.0, 'err_ra': 1e-5, 'err_dec': 2e-5, 'err_a': 0.1, 'err_b': 0.2, 'err_pa': 0.3, 'flags': 0,
            'psf': (30.0, 30.0, 0.0), 'kind': 'in', 'pix': (43.7, 43.0)}
-    c = json.loads(json.dumps(base))
-    if cls == 'psf':
-        c['opts']['psf_cols'] = False
-        c['cat'] = [src]
-    elif cls == 'limits':
-        c['cat'] = [dict(src, b=20.0)]
-    else:
-        c['opts']['ratio'] = 1.0
-        c['cat'] = [src, dict(src, uuid='u1', island=1, ra=330.0, dec=30.0, kind='off', pix=None)]
-    return c
+    return {'flavor': 'probe', 'rows': 80, 'cols': 90, 'nan': [], 'cat': [src],
+            'opts': {'stage': 1, 'regroup': True, 'ratio': None, 'psf_cols': False, 'input': 'list', 'docov': False}}
 
 
 def fails_same(ctx, cc, cls):
